@@ -118,6 +118,9 @@ func smtFile(o *Obligation, slice bool) string {
 				if _, ok := st.funcs[d]; !ok && strings.HasPrefix(d, "sel_") {
 					st.funcs[d] = "(Int Int) " + strings.TrimPrefix(d, "sel_")
 				}
+				if _, ok := st.funcs[d]; !ok && strings.HasPrefix(d, "fnret_") {
+					st.funcs[d] = "(Int Int) " + strings.TrimPrefix(d, "fnret_")
+				}
 			}
 		}
 	}
